@@ -2518,16 +2518,20 @@ void DTDScanner::scanExtSubsetDecl(const bool inIncludeSect, const bool isDTD)
             while (true)
             {
                 XMLCh nextCh;
-                
+                bool noMore = false;
+
                 try {
                     nextCh = fReaderMgr->peekNextChar();
                 }
                 catch (XMLException& ex) {
                     fScanner->emitError(XMLErrs::XMLException_Fatal, ex.getCode(), ex.getMessage(), NULL, NULL);
                     nextCh = chNull;
+                    noMore = true;
                 }
 
-                if (!nextCh)
+                // A null character in the input is not the end of it: it
+                // is reported as an invalid character below
+                if (!nextCh && (noMore || fReaderMgr->atEOF()))
                 {
                     return; // nothing left
                 }
@@ -2953,9 +2957,10 @@ bool DTDScanner::scanInternalSubset()
         //
         //  If we get an end of file marker, just unget it and return a
         //  failure status. The caller will then see the end of file and
-        //  faill out correctly.
+        //  faill out correctly. A null character in the input is not the
+        //  end of it: it is reported as an invalid character below.
         //
-        if (!nextCh)
+        if (!nextCh && fReaderMgr->atEOF())
             return false;
 
         // Watch for the end of internal subset marker
